@@ -44,7 +44,15 @@ def r04_1(chk):
             raise AnalysisError(f"twin Sequence.{name} missing on one side")
         for kind, fa, fb in pairs:
             chk.decide(twins.same(fa, fb), "R04.1", key(o, f"Sequence.{name}{kind}", "twin of new"), f"{o.loc(fa)} / {n.loc(fb)}", "identical after normalisation", "old and new implementations diverge: " + " ; ".join(twins.diff(fa, fb)))
-    chk.floor("R04.1", 9, "translation twins")
+    # the coordinate conversions of the view class (shared with R01.3): annotations are translated through them
+    ov, nv = o.cls("SliceRecordABC"), n.cls("SliceRecordABC")
+    for name in ("relative_position", "absolute_position", "parent_start", "parent_stop"):
+        fa = ov.methods.get(name) or (ov.properties.get(name) or {}).get("get")
+        fb = nv.methods.get(name) or (nv.properties.get(name) or {}).get("get")
+        if fa is None or fb is None:
+            raise AnalysisError(f"twin SliceRecordABC.{name} missing on one side")
+        chk.decide(twins.same(fa, fb), "R04.1", key(o, f"SliceRecordABC.{name}", "twin of new"), f"{o.loc(fa)} / {n.loc(fb)}", "identical after normalisation", "old and new implementations diverge: " + " ; ".join(twins.diff(fa, fb)))
+    chk.floor("R04.1", 13, "translation twins")
 
 
 def r04_2(chk):
